@@ -51,6 +51,10 @@ def shapes():
             continue
         out.append(('shape H=%s S=%s Cp=%s range=%s' % (h, s, cp, rng),
                     lambda h=h, s=s, cp=cp, rng=rng: ThermochemGroup(h, s, cp, 298.15, rng)))
+        if ncp == 3 and s is None:
+            back = dict(reversed(list(cp.items())))
+            out.append(('shape H=%s S=%s Cp=%s (given backwards) range=%s' % (h, s, back, rng),
+                        lambda h=h, s=s, cp=back, rng=rng: ThermochemGroup(h, s, cp, 298.15, rng)))
     return out
 
 
@@ -59,6 +63,8 @@ def random_corrs(rng_, n):
     for k in range(n):
         m = rng_.choice([0, 1, 2, 4, 7, 15])
         ts = sorted(rng_.sample([float(x) for x in range(300, 1600, 50)], m))
+        if k % 2:
+            rng_.shuffle(ts)      # a table given in any insertion order is the same table
         cp = {t: round(rng_.uniform(-3, 15), 6) for t in ts}
         h = rng_.choice([None, 0.0, round(rng_.uniform(-80, 80), 5)])
         s = rng_.choice([None, 0.0, round(rng_.uniform(-10, 40), 5)])
